@@ -122,7 +122,7 @@ class ScaledValueExpression(inline.InlineElement):  # type: ignore
                 else
                 # Decimal case
                 (
-                    int(float(submatch["decimal"]))
+                    int(submatch["decimal"])
                     if "." not in submatch["decimal"]
                     else float(submatch["decimal"])
                 )
